@@ -1431,6 +1431,12 @@ void Interpreter::handle_import_statement(const ASTNode *node) {
                                 member->pointer_base_type,
                                 member->is_private_member, member->is_reference,
                                 member->is_unsigned, member->is_const);
+                            if (member->array_type_info.is_array()) {
+                                // keep the extents of an array member, as
+                                // register_global_declarations does
+                                struct_def.members.back().array_info =
+                                    member->array_type_info;
+                            }
                             if (member->is_default_member) {
                                 struct_def.has_default_member = true;
                                 struct_def.default_member_name = member->name;
